@@ -564,6 +564,30 @@ def gen_EngineCpp(repo):
     L.append("def engineGlobals : List (String × String) := %s\n" %
              lean_list(["(%s, %s)" % (lean_str(a), lean_str(b.strip())) for a, b in gl]))
 
+    # ---- index formulas of the flattened tables the algorithms read (must agree across all read sites)
+    def table_formula(vec, names, files):
+        forms = set()
+        for fname in files:
+            for name, expr in _subscripts(_cpp(repo, fname)):
+                if name == vec:
+                    forms.add(CppExpr(expr, names).parse())
+        if len(forms) != 1:
+            raise AnchorLost("index formula of %s is not unique across its read sites: %s" % (vec, sorted(forms)))
+        return forms.pop()
+    algo_files = ["SimulationAlgorithm3DBase.hpp", "SimulationAlgorithmGraphBase.hpp", "Euler3D.hpp", "EulerGraph.hpp",
+                  "TauLeap3D.hpp", "TauLeapGraph.hpp", "Gillespie3D.hpp", "GillespieGraph.hpp"]
+    nm3 = {"mesh_env[i]": "e", "mesh_env[j]": "e", "n_reactions": "nr", "n_species": "ns", "n_env": "ne", "r": "r", "s": "s",
+           "j": "s", "reaction_index": "r", "i": "i", "mesh_index": "i", "species_index": "s", "n": "n", "direction": "n"}
+    L.append("/-- flattened-table index formulas as read by the algorithms (identical at every read site) -/")
+    L.append("def kIndex (nr e r : Int) : Int := %s" % table_formula("k", nm3, algo_files))
+    L.append("def subIndex (nr s r : Int) : Int := %s" % table_formula("sub", nm3, algo_files))
+    nm_sto = dict(nm3)
+    L.append("def stoIndex (nr s r : Int) : Int := %s" % table_formula("sto", nm_sto, algo_files))
+    L.append("def dIndex (ne s e : Int) : Int := %s" % table_formula("D", nm3, algo_files))
+    L.append("def krIndex (nr i r : Int) : Int := %s" % table_formula("mesh_kr", nm3, algo_files))
+    L.append("def kdIndexGrid (ns i s n : Int) : Int := %s" % table_formula("mesh_kd", nm3, ["SimulationAlgorithm3DBase.hpp"]))
+    L.append("")
+
     # ---- subscript inventory (G5): every vec[expr] in every engine source file
     inv = []
     for fname in ("SimulationAlgorithm3DBase.hpp", "SimulationAlgorithmGraphBase.hpp", "Euler3D.hpp", "EulerGraph.hpp",
@@ -910,4 +934,312 @@ def gen_DictKeys(repo):
     L.append("def spaceTypes : List String := %s" % lean_list([lean_str(s) for s in types]))
     L.append("def spaceTypeDefault : String := %s" % lean_str(dflt_type))
     L.append("\nend Strengths.Gen.DictKeys")
+    return "\n".join(L) + "\n"
+
+
+# =============================================================================================
+# C18 : the text pipeline of units.py (parse_units pre/post-processing, parse_unitvalue,
+#       Units.__str__, UnitValue.__str__, Units.__eq__)
+# =============================================================================================
+@group
+def gen_UnitsText(repo):
+    units = PySrc(repo, "src/strengths/units.py")
+
+    def norm(node):
+        return re.sub(r"\s+", "", units.seg(node))
+
+    # ------------------------------------------------------------------ parse_units
+    pu = units.func("parse_units")
+    top = [n for n in pu.body]
+    # order of the top-level preprocessing statements: replace chain, strip, empty test, whitespace guard
+    idx_strip = idx_empty = idx_guard = idx_loop = None
+    for i, n in enumerate(top):
+        if isinstance(n, ast.Assign) and norm(n) == "s=s.strip()":
+            idx_strip = i
+        if isinstance(n, ast.If) and norm(n.test) == 's==""' and any(isinstance(b, ast.Return) for b in n.body):
+            idx_empty = i
+        if isinstance(n, ast.If) and norm(n.test) == "any(c.isspace()forcins)" and any(isinstance(b, ast.Raise) for b in n.body):
+            idx_guard = i
+        if isinstance(n, ast.For) and norm(n.iter) == "s" and idx_loop is None:
+            idx_loop = i
+    if idx_strip is None or idx_empty is None or idx_loop is None:
+        raise AnchorLost("units.py:parse_units strip / empty test / character loop")
+    if not (idx_strip < idx_empty < idx_loop):
+        raise AnchorLost("units.py:parse_units order of strip, empty test, character loop")
+    guard = idx_guard is not None and idx_empty < idx_guard < idx_loop
+    if idx_guard is not None and not guard:
+        raise AnchorLost("units.py:parse_units whitespace guard position")
+    # replace chain must come before the strip
+    for i, n in enumerate(top):
+        if isinstance(n, ast.Assign) and isinstance(n.value, ast.Call) and isinstance(n.value.func, ast.Attribute) \
+                and n.value.func.attr == "replace" and i > idx_strip:
+            raise AnchorLost("units.py:parse_units replace after strip")
+    # first block
+    first_sep = None
+    for n in top:
+        if isinstance(n, ast.Assign) and norm(n.targets[0]) == "blocks" and isinstance(n.value, ast.List) \
+                and len(n.value.elts) == 1 and isinstance(n.value.elts[0], ast.List):
+            e = n.value.elts[0].elts
+            if len(e) == 3 and const_str(e[1]) == "" and const_str(e[2]) == "":
+                first_sep = const_str(e[0])
+    if first_sep is None or len(first_sep) != 1:
+        raise AnchorLost("units.py:parse_units initial block")
+    # second pass over the blocks: default exponent, reader, negation separator
+    dflt_exp = reader = neg_sep = None
+    for n in top:
+        if isinstance(n, ast.For) and norm(n.iter) == "blocks" and norm(n.target) == "b":
+            for st in n.body:
+                if isinstance(st, ast.If) and norm(st.test) == 'b[2]==""' and len(st.body) == 1 \
+                        and isinstance(st.body[0], ast.Assign) and norm(st.body[0].targets[0]) == "b[2]":
+                    dflt_exp = const_str(st.body[0].value)
+                if isinstance(st, ast.Assign) and norm(st.targets[0]) == "b[2]" and isinstance(st.value, ast.Call) \
+                        and isinstance(st.value.func, ast.Name) and norm(st.value.args[0]) == "b[2]" and len(st.value.args) == 1:
+                    reader = st.value.func.id
+                if isinstance(st, ast.If) and isinstance(st.test, ast.Compare) and norm(st.test.left) == "b[0]" \
+                        and isinstance(st.test.ops[0], ast.Eq) and len(st.body) == 1 and norm(st.body[0]) == "b[2]=-b[2]":
+                    neg_sep = const_str(st.test.comparators[0])
+            if reader is not None:
+                break
+    if dflt_exp is None or reader is None or neg_sep is None or len(neg_sep) != 1:
+        raise AnchorLost("units.py:parse_units exponent pass (default exponent / int() / '/' negation)")
+    # addunit: same-base consistency test
+    au = units.nested_func(pu, "addunit")
+    au_test = None
+    for n in au.body:
+        if isinstance(n, ast.If):
+            au_test = norm(n.test)
+            au_else_raises = any(isinstance(b, ast.Raise) for b in n.orelse)
+    if au_test is None:
+        raise AnchorLost("units.py:parse_units.addunit test")
+    # unknown unit: `if unittype == None: raise`
+    unk = False
+    for n in ast.walk(pu):
+        if isinstance(n, ast.If) and norm(n.test) == "unittype==None" and any(isinstance(b, ast.Raise) for b in n.body):
+            unk = True
+
+    # ------------------------------------------------------------------ parse_unitvalue
+    pv = units.func("parse_unitvalue")
+    strips = any(isinstance(n, ast.Assign) and norm(n) == "s=s.strip()" for n in pv.body)
+    splitter = None
+    for n in pv.body:
+        if isinstance(n, ast.Assign) and norm(n.targets[0]) == "tok":
+            splitter = norm(n.value)
+    if splitter is None:
+        raise AnchorLost("units.py:parse_unitvalue tok = s.split()")
+    value_reader = join = empty_value = empty_units = None
+    units_arg = None
+    for n in ast.walk(pv):
+        if isinstance(n, ast.Assign) and norm(n.targets[0]) == "value" and isinstance(n.value, ast.Call) \
+                and isinstance(n.value.func, ast.Name) and len(n.value.args) == 1:
+            value_reader = "%s(%s)" % (n.value.func.id, norm(n.value.args[0]))
+        if isinstance(n, ast.Assign) and norm(n.targets[0]) == "value" and isinstance(n.value, ast.Constant):
+            empty_value = const_number(units, n.value, {})
+        if isinstance(n, ast.Assign) and norm(n.targets[0]) == "us":
+            v = n.value
+            if isinstance(v, ast.Call) and isinstance(v.func, ast.Attribute) and v.func.attr == "join" \
+                    and len(v.args) == 1 and norm(v.args[0]) == "tok[1:]":
+                join = const_str(v.func.value)
+        if isinstance(n, ast.AugAssign) and norm(n.target) == "us" and isinstance(n.op, ast.Add) and norm(n.value) == "tok[i]" \
+                and join is None:
+            join = ""    # token concatenation loop (`us += tok[i]`)
+        if isinstance(n, ast.Assign) and norm(n.targets[0]) == "units" and isinstance(n.value, ast.Call) \
+                and norm(n.value.func) == "parse_units" and len(n.value.args) == 1:
+            a = n.value.args[0]
+            if isinstance(a, ast.Constant):
+                empty_units = const_str(a)
+            else:
+                units_arg = norm(a)
+    if value_reader is None or join is None or empty_value is None or empty_units is None or units_arg is None:
+        raise AnchorLost("units.py:parse_unitvalue value / join / empty case")
+
+    # ------------------------------------------------------------------ Units.__str__ / UnitValue.__str__ / Units.__eq__
+    us = units.func("__str__", "Units")
+    skip = bare = sep = None
+    keys = None
+    for n in ast.walk(us):
+        if isinstance(n, ast.For) and norm(n.iter) == "self.sys.keys()":
+            keys = "self.sys.keys()"
+        if isinstance(n, ast.If) and isinstance(n.test, ast.Compare) and norm(n.test.left) == "self.dim[k]" \
+                and isinstance(n.test.ops[0], ast.NotEq):
+            val = const_number(units, n.test.comparators[0], {})
+            inner = [b for b in n.body if isinstance(b, ast.If)]
+            if inner:
+                skip = val
+            else:
+                bare = val
+                if not (len(n.body) == 1 and norm(n.body[0]) == "s.append(self.sys[k]+str(self.dim[k]))"
+                        and len(n.orelse) == 1 and norm(n.orelse[0]) == "s.append(self.sys[k])"):
+                    raise AnchorLost("units.py:Units.__str__ append statements")
+        if isinstance(n, ast.AugAssign) and norm(n.target) == "out" and isinstance(n.value, ast.Constant):
+            sep = const_str(n.value)
+    if skip is None or bare is None or sep is None or keys is None:
+        raise AnchorLost("units.py:Units.__str__ structure")
+    kf = units.func("keys", "_UnitsComponentDict")
+    key_list = None
+    for n in ast.walk(kf):
+        if isinstance(n, ast.Return):
+            key_list = str_list(n.value)
+    if key_list is None:
+        raise AnchorLost("units.py:_UnitsComponentDict.keys")
+    vs = units.func("__str__", "UnitValue")
+    vsep = None
+    for n in ast.walk(vs):
+        if isinstance(n, ast.Return):
+            m = re.fullmatch(r'str\(self\.value\)\+("[^"]*")\+self\.units\.__str__\(\)', norm(n.value))
+            if m:
+                vsep = ast.literal_eval(m.group(1))
+            # note: a blank inside the literal survives `norm` only if quoted text is kept; re-read from the AST
+            if isinstance(n.value, ast.BinOp) and isinstance(n.value.left, ast.BinOp) \
+                    and isinstance(n.value.left.right, ast.Constant) and isinstance(n.value.left.right.value, str) \
+                    and norm(n.value.left.left) == "str(self.value)" and norm(n.value.right) == "self.units.__str__()":
+                vsep = n.value.left.right.value
+    if vsep is None:
+        raise AnchorLost("units.py:UnitValue.__str__ return")
+    ue = units.func("__eq__", "Units")
+    eq_keys, eq_tests = None, []
+    for n in ast.walk(ue):
+        if isinstance(n, ast.For) and isinstance(n.iter, (ast.List, ast.Tuple)):
+            eq_keys = str_list(n.iter)
+            for st in n.body:
+                if isinstance(st, ast.If) and len(st.body) == 1 and norm(st.body[0]) == "returnFalse":
+                    eq_tests.append(norm(st.test))
+    if eq_keys is None or not eq_tests:
+        raise AnchorLost("units.py:Units.__eq__ loop")
+
+    L = []
+    L.append("namespace Strengths.Gen\n")
+    L.append("/-- `parse_units`: the replace chain, then `s = s.strip()`, then `if s == \"\": return` default units,")
+    L.append("then (when present) `if any(c.isspace() for c in s): raise`, then the character loop -/")
+    L.append("def puRejectsInnerBlank : Bool := %s" % ("true" if guard else "false"))
+    L.append("def puFirstBlockSep : Char := '%s'" % first_sep)
+    L.append("/-- exponent pass: `if b[2] == \"\": b[2] = <default>`, `b[2] = <reader>(b[2])`, `if b[0] == <sep>: b[2] = -b[2]` -/")
+    L.append("def puDefaultExp : String := %s" % lean_str(dflt_exp))
+    L.append("def puExpReader : String := %s" % lean_str(reader))
+    L.append("def puNegSep : Char := '%s'" % neg_sep)
+    L.append("/-- `addunit`: accept test, and whether the else branch raises -/")
+    L.append("def puAddUnitTest : String := %s" % lean_str(au_test))
+    L.append("def puAddUnitElseRaises : Bool := %s" % ("true" if au_else_raises else "false"))
+    L.append("def puUnknownUnitRaises : Bool := %s\n" % ("true" if unk else "false"))
+    L.append("/-- `parse_unitvalue` -/")
+    L.append("def uvStrips : Bool := %s" % ("true" if strips else "false"))
+    L.append("def uvSplitter : String := %s" % lean_str(splitter))
+    L.append("def uvValueReader : String := %s" % lean_str(value_reader))
+    L.append("def uvUnitTokJoin : String := %s" % lean_str(join))
+    L.append("def uvUnitsArg : String := %s" % lean_str(units_arg))
+    L.append("def uvEmptyValue : Rat := %s" % lean_rat(empty_value))
+    L.append("def uvEmptyUnits : String := %s\n" % lean_str(empty_units))
+    L.append("/-- `Units.__str__`: skip exponent, bare-symbol exponent, separator, key order -/")
+    L.append("def strSkipExp : Int := %d" % int(skip))
+    L.append("def strBareExp : Int := %d" % int(bare))
+    L.append("def strSep : String := %s" % lean_str(sep))
+    L.append("def strKeys : List String := %s" % lean_list([lean_str(k) for k in key_list]))
+    L.append("/-- `UnitValue.__str__` = str(value) + <sep> + str(units) -/")
+    L.append("def uvStrSep : String := %s\n" % lean_str(vsep))
+    L.append("/-- `Units.__eq__`: keys of the loop and the tests that return False -/")
+    L.append("def unitsEqKeys : List String := %s" % lean_list([lean_str(k) for k in eq_keys]))
+    L.append("def unitsEqTests : List String := %s" % lean_list([lean_str(k) for k in eq_tests]))
+    L.append("\nend Strengths.Gen")
+    return "\n".join(L) + "\n"
+
+
+# =============================================================================================
+# UnitsOps : operator wiring of UnitValue / UnitArray (C05) — normalised source text, no evaluation
+# =============================================================================================
+@group
+def gen_UnitsOps(repo):
+    units = PySrc(repo, "src/strengths/units.py")
+
+    def norm(node):
+        txt = re.sub(r"\s+", "", units.seg(node))
+        return re.sub(r"\"[^\"]*\"|'[^']*'", '""', txt)
+
+    def stmt(s):
+        if isinstance(s, ast.Expr) and isinstance(s.value, ast.Constant) and isinstance(s.value.value, str):
+            return None   # docstring
+        if isinstance(s, ast.Return):
+            return "return " + (norm(s.value) if s.value is not None else "")
+        if isinstance(s, ast.Raise):
+            e = s.exc
+            name = e.func.id if isinstance(e, ast.Call) and isinstance(e.func, ast.Name) else (e.id if isinstance(e, ast.Name) else None)
+            if name is None:
+                raise AnchorLost("units.py: raise of an unexpected form: " + units.seg(s)[:60])
+            return "raise " + name
+        if isinstance(s, ast.If):
+            out = "if " + norm(s.test) + ":{" + body(s.body) + "}"
+            if s.orelse:
+                out += "else:{" + body(s.orelse) + "}"
+            return out
+        if isinstance(s, (ast.Assign, ast.AugAssign)):
+            return norm(s)
+        if isinstance(s, ast.For):
+            return "for " + norm(s.target) + " in " + norm(s.iter) + ":{" + body(s.body) + "}"
+        raise AnchorLost("units.py: statement outside the normalised subset: " + units.seg(s)[:60])
+
+    def body(stmts):
+        return ";".join(x for x in (stmt(s) for s in stmts) if x is not None)
+
+    def branches(fn):
+        """the top-level if/elif/else chain of a method: [(test, body)]; other statements: ("", stmt)"""
+        out = []
+        for s in fn.body:
+            if isinstance(s, ast.If):
+                node = s
+                while True:
+                    out.append((norm(node.test), body(node.body)))
+                    if len(node.orelse) == 1 and isinstance(node.orelse[0], ast.If):
+                        node = node.orelse[0]
+                    else:
+                        if node.orelse:
+                            out.append(("else", body(node.orelse)))
+                        break
+            else:
+                t = stmt(s)
+                if t is not None:
+                    out.append(("", t))
+        if not out:
+            raise AnchorLost("units.py:%s has no statements" % fn.name)
+        return out
+
+    def table(name, rows):
+        return "def %s : List (String × String) := %s" % (
+            name, lean_list(["(%s, %s)" % (lean_str(a), lean_str(b)) for a, b in rows]))
+
+    L = ["namespace Strengths.Gen\n"]
+    dunders = ["__add__", "__radd__", "__sub__", "__rsub__", "__mul__", "__rmul__", "__truediv__", "__rtruediv__",
+               "__mod__", "__rmod__", "__neg__", "__abs__", "invert"]
+    for cls, pre in (("UnitValue", "uval"), ("UnitArray", "uarr")):
+        rows = []
+        for m in dunders:
+            fn = units.func(m, cls=cls)
+            b = branches(fn)
+            if len(b) != 1 or b[0][0] != "" or not b[0][1].startswith("return "):
+                raise AnchorLost("units.py:%s.%s is not a single return" % (cls, m))
+            rows.append((m, b[0][1][len("return "):]))
+        L.append("/-- `%s`: the return expression of every operator method (whitespace removed) -/" % cls)
+        L.append(table(pre + "Wiring", rows))
+        for m in ("_sum", "_product", "_modulo", "_rmodulo"):
+            L.append("/-- `%s.%s`: (test, normalised body) per branch -/" % (cls, m))
+            L.append(table(pre + m, branches(units.func(m, cls=cls))))
+        for m in ("__pow__", "__rpow__"):
+            L.append(table(pre + m.strip("_").capitalize(), branches(units.func(m, cls=cls))))
+        # comparison methods the class defines (Python derives `!=` from `__eq__` only when `__ne__` is absent)
+        cdef = None
+        for n in units.tree.body:
+            if isinstance(n, ast.ClassDef) and n.name == cls:
+                cdef = n
+        names = [f.name for f in cdef.body if isinstance(f, ast.FunctionDef)
+                 and f.name in ("__eq__", "__ne__", "__neq__", "__gt__", "__ge__", "__lt__", "__le__")]
+        L.append("def %sCmpMethods : List String := %s" % (pre, lean_list([lean_str(x) for x in names])))
+        L.append("")
+    for m in ("__eq__", "__gt__", "__ge__", "__lt__", "__le__"):
+        L.append("/-- `UnitValue.%s` -/" % m)
+        L.append(table("uvalCmp_" + m.strip("_"), branches(units.func(m, cls="UnitValue"))))
+    L.append("")
+    for m in ("invert", "multiply", "raiseto"):
+        L.append("/-- `Units.%s` -/" % m)
+        L.append(table("units_" + m, branches(units.func(m, cls="Units"))))
+    for m in ("_neg", "_inv"):
+        L.append("/-- module function `%s` -/" % m)
+        L.append(table("fn" + m, branches(units.func(m))))
+    L.append("\nend Strengths.Gen")
     return "\n".join(L) + "\n"
